@@ -186,6 +186,10 @@ func c09GenEvent(t *rapid.T, at int64, wantInvalid bool, monitor bool) advEvent 
 		ev.Kind, ev.Msg = "msg", "ra"
 		if rapid.Bool().Draw(t, "inconsistent") {
 			ev.RA = &vRA{Hop: 32, M: true, LifeS: 1800, Opts: []vOpt{{Kind: "mtu", MTU: 9000}, {Kind: "prefix", Prefix: "2001:db8:1::/64", ValidS: 100, PrefS: 50}}}
+			if rapid.IntRange(0, 3).Draw(t, "rawlen") == 0 {
+				// a prefix option whose length byte is impossible (the wire allows any byte)
+				ev.RA.Opts = append(ev.RA.Opts, vOpt{Kind: "prefix", Prefix: "2001:db8:2::/64", ValidS: 100, PrefS: 50, RawLen: rapid.SampledFrom([]uint8{129, 255}).Draw(t, "rawlenv")})
+			}
 		}
 		if ev.From == "::" {
 			ev.From = "fe80::99"
@@ -244,7 +248,12 @@ func c09Gen(t *rapid.T) c09Case {
 	for _, src := range []string{"fe80::e1", "2001:db8::e2"} {
 		c.Events = append(c.Events, advEvent{AtNS: at, Kind: "rs", From: src})
 	}
-	c.StopNS = at + int64(2*time.Second)
+	// The run must outlast every answer that is due in either of the two compared runs: a
+	// solicitation from :: may be served by a multicast RA up to 3 s later (MIN_DELAY_BETWEEN_RAS),
+	// plus the 500 ms delay, plus the reader's lag, which differs between the runs by at most the
+	// receive back-off of the timeouts (<= 300 ms per segment, 8 segments). With a shorter tail the
+	// last multicast RA falls before the stop in one run and after it in the other.
+	c.StopNS = at + int64(7*time.Second)
 	return c
 }
 
